@@ -179,6 +179,9 @@ static Result run_case(const Case &c) {
       rename(outp.c_str(), (dir + "/" + name_of(i)).c_str());
     }
     write_file(dir + "/" + name_of(6), std::string(800, 'J'));
+    mkdir((dir + "-alt").c_str(), 0700);
+    for (int i = 0; i <= 6; i++)
+      if (symlink((dir + "/" + name_of(i)).c_str(), (dir + "-alt/" + name_of(i)).c_str())) {}
     std::string setfile = dir + "/set.fileset";
     // setfile versions
     std::vector<std::vector<long>> versions;
@@ -187,8 +190,11 @@ static Result run_case(const Case &c) {
       std::string text;
       for (size_t i = 0; i < names.size(); i++) {
         int n = (int)names[i];
-        // alternate relative and absolute lines
-        text += (i % 2 ? dir + "/" : std::string()) + name_of(n) + "\n";
+        // relative lines, absolute lines inside the setfile's directory, and absolute lines through another directory
+        // (a sibling directory <dir>-alt holds symlinks to the tables, so these paths do not start with the setfile's
+        // directory), in an order that varies with the version
+        size_t form = (i + versions.size()) % 3;
+        text += (form == 0 ? std::string() : form == 1 ? dir + "/" : dir + "-alt/") + name_of(n) + "\n";
       }
       if (mode == 1) {
         std::string tmp = setfile + ".new";
@@ -444,6 +450,7 @@ static Result run_case(const Case &c) {
     for (auto &h : hs)
       if (h.alive) mtbl_fileset_destroy(&h.fs);
     rm_rf(dir);
+    rm_rf(dir + "-alt");
     r.nontrivial = saw_change_reload_read_other || iter_across_reloadnow;
     if (saw_change_reload_read_other) r.tag("change_then_reload_via_one_handle_then_read_via_another");
     if (iter_across_reloadnow) r.tag("iterator_open_across_reload_now");
